@@ -10,7 +10,7 @@
         the dict-probe arm; validate_loss_function converts Metric instances and passes callables through.
 """
 from .. import ir
-from ..paths import paths, walk
+from ..paths import paths, walk, root
 from ..report import AnalysisError
 from .common import gate_on, const_value, new_items
 
@@ -233,6 +233,17 @@ def _check_own(run):
     cn = [a.arg for a in cfn.args.args][1:]
     y_true, y_pred = ("param", cn[0]), ("param", cn[1])
     M = ("field0", mf)
+    # the arguments are the caller's objects: the loss reads them (a prediction dict that gains or loses an entry is
+    # not the pair the caller asked about, and the caller keeps the changed dict)
+    touched = [ev for ev, _ in walk(s.events)
+               if (isinstance(ev, ir.Mut) and root(ev.recv) in (y_true, y_pred)) or
+               (isinstance(ev, (ir.SubStore, ir.Del)) and root(ev.cont) in (y_true, y_pred)) or
+               (isinstance(ev, ir.AttrStore) and root(ev.obj) in (y_true, y_pred))]
+    run.check(not touched, "PAIR", "call.arguments-unchanged", f"{s.path}:{touched[0].line if touched else s.fn.lineno}", fq,
+              f"{len(touched)} writes into the arguments",
+              f"__call__ changes one of its arguments in place ({run.stmt_text(s.path, touched[0].line) if touched else ''}): the "
+              f"metric then sees a different pair than the caller passed (and the caller's prediction dict stays changed)",
+              "y_true / y_prediction are only read")
     ps = paths(s.events, unroll=1)
     run.analysed["paths"] += len(ps)
     wrapper = prog.find_class("Wrapper")
